@@ -77,7 +77,7 @@ fn text_variants(r: &mut Rng, text: &[u32], st: &mut Out) -> Vec<u32> {
 		4 => { // parameter row with a source cell
 			if let Some(l) = lines.iter_mut().find(|l| l.starts_with(&[9, 9, 112, 9])) {
 				let mut cells: Vec<Vec<u32>> = l.split(|c| *c == 9).map(|c| c.to_vec()).collect();
-				if cells.len() > 4 { cells[4] = t("src"); }
+				if cells.len() > 4 { cells[4] = t(*r.pick(&["src", "x", "s", "ab", " "])); }
 				*l = cells.join(&9);
 			}
 		}
@@ -265,6 +265,14 @@ fn gen(r: &mut Rng, tier: Tier, out: &mut Out) {
 		let Ok(typed) = diff_from(&ds) else { continue };
 		let text = write_spec(&typed);
 		out.op("tdiff-read", &[Sexp::cps(&text)]);
+		// the source cell of the first parameter row: empty (the only legal spelling), one character, longer
+		for src in ["", "x", "src", "p0"] {
+			if let Some(v) = with_param_src(&text, &src.chars().map(|c| c as u32).collect::<Vec<u32>>()) {
+				out.stats.hit(&format!("param-src-cell:len={}", src.len()));
+				out.op("oracle-param-src-cell", &[ds.clone(), Sexp::str(src)]);
+				out.op("tdiff-read", &[Sexp::cps(&v)]);
+			}
+		}
 		for _ in 0..3 {
 			let mut v = text_variants(r, &text, out);
 			if r.chance(1, 4) { v = text_variants(r, &v, out); }
@@ -275,6 +283,8 @@ fn gen(r: &mut Rng, tier: Tier, out: &mut Out) {
 		"tiny\t2\t0\nc\tA\tX\tX\n\tc\n\tc\n", "tiny\t2\t0\nc\tA\n\tc\ta\\nb\tc\\\\nd\n", "tiny\t2\t0\nc\tA\n\t\tc\tx\n", "tiny\t2\t0\n\tc\tx\n",
 		"tiny\t2\t0\nc\tA\n\tf\tI\n", "tiny\t2\t0\nc\tA\n\tf\t\tx\n\tm\t\t<init>\n\tm\t\t<x>\n", "tiny\t2\t0\nc\tA\n\tm\t()V\tm\n\t\tp\t0\n",
 		"tiny\t2\t0\nc\tA\n\tm\t()V\tm\n\t\tp\t0\t\n\t\t\tc\td\n\t\t\t\tc\td\n", "tiny\t2\t0\nc\tA\n\tf\tI\tf\n\t\tp\t0\t\tq\n\t\t\tc\n",
+		"tiny\t2\t0\nc\tA\n\tm\t()V\tm\n\t\tp\t0\t\ta\tb\n", "tiny\t2\t0\nc\tA\n\tm\t()V\tm\n\t\tp\t0\tx\ta\tb\n", "tiny\t2\t0\nc\tA\n\tm\t()V\tm\n\t\tp\t0\tsrc\ta\tb\n",
+		"tiny\t2\t0\nc\tA\n\tm\t()V\tm\n\t\tp\t0\tx\n", "tiny\t2\t0\nc\tA\n\tm\t()V\tm\n\t\tp\t0\tx\t\tb\n", "tiny\t2\t0\nc\tA\n\tm\t()V\tm\n\t\tp\t0\t \ta\tb\n",
 		"tiny\t2\t0\nc\t[A\n", "tiny\t2\t0\nc\ta//b\n", "tiny\t2\t0\nc\tA\t[X\n", "tiny\t2\t0\nx\n\ty\n", "tiny\t2\t0\nc\tA\nc\tA\n", "tiny\t2\t0\nc\tA\n\tc\t\tx\ty\n",
 		"tiny\t2\t0\nc\tA\n\tc\t\ta\\rb\\tc\\\\n\\\\\\nd\\\n", "tiny\t2\t0\nc\tA\n\tc\tx\\\tx\\\\\n", "tiny\t2\t0\nc\tA\n\tc\t\\q\\\t\n", "tiny\t2\t0\nc\tA\n\tc\t\\\\\t\\\n"] {
 		out.stats.hit("text-literal");
@@ -295,6 +305,17 @@ fn read_text(text: &str) -> anyhow::Result<MappingsDiff> {
 	r
 }
 
+/// `text` (lines `\n`-separated, cells tab-separated) with cell 4 - the source cell - of its first parameter row (`\t\tp\t…`) replaced;
+/// `None`: there is no such row
+fn with_param_src(text: &[u32], src: &[u32]) -> Option<Vec<u32>> {
+	let mut lines: Vec<Vec<u32>> = text.split(|c| *c == 10).map(|l| l.to_vec()).collect();
+	let l = lines.iter_mut().find(|l| l.starts_with(&[9, 9, 112, 9]))?;
+	let mut cells: Vec<Vec<u32>> = l.split(|c| *c == 9).map(|c| c.to_vec()).collect();
+	if cells.len() <= 4 { return None; }
+	cells[4] = src.to_vec();
+	*l = cells.join(&9);
+	Some(lines.join(&10))
+}
 fn cps_to_string(v: &[u32]) -> Option<String> { v.iter().map(|c| char::from_u32(*c)).collect() }
 
 fn apply_real(d: &Sexp, t: &Sexp, ns: &str) -> Result<Result<Sexp, ()>, String> {
@@ -330,6 +351,20 @@ fn exec(op: &str, args: &[Sexp]) -> Ans {
 			match read_text(&text) {
 				Ok(d2) => if diff_to(&d2) == norm_diff(d) { Ans::pass() } else { Ans::fail("read_differs") },
 				Err(_) => Ans::fail("unreadable"),
+			}
+		}
+		// "parameter rows must have an empty source cell": the specification text of a writable diff with the source cell of its
+		// first parameter row set to `src` is read back as the diff when `src` is empty and refused otherwise
+		("oracle-param-src-cell", [d, src]) => {
+			let src = tr!(src.as_cps());
+			if !writable(d) || !plain_cell(&src) { return Ans::out_of_domain(); }
+			let Some(v) = with_param_src(&write_spec(&tr!(diff_from(d))), &src) else { return Ans::out_of_domain() };
+			let Some(text) = cps_to_string(&v) else { return Ans::fail("text") };
+			match (read_text(&text), src.is_empty()) {
+				(Ok(d2), true) => if diff_to(&d2) == norm_diff(d) { Ans::pass() } else { Ans::fail("read_differs") },
+				(Err(_), true) => Ans::fail("unreadable"),
+				(Ok(_), false) => Ans::fail("source_cell_accepted"),
+				(Err(_), false) => Ans::pass(),
 			}
 		}
 		("oracle-apply-wf" | "oracle-apply-wf-full", [d, t, ns]) => {
